@@ -19,6 +19,7 @@ type replay struct {
 	Tier    string   `json:"tier"`
 	Family  string   `json:"family"`
 	Start   int64    `json:"start"`
+	Clock   int64    `json:"clock_start_unix_ns,omitempty"`
 	Syms    []int    `json:"syms"`
 	History []string `json:"history"`
 	Ops     []op     `json:"ops"` // prefix + history, self-contained
@@ -35,7 +36,7 @@ func describe(tier string, f *family, hist []int) replay {
 
 // describeOps records the symbols executed up to and including the failing one.
 func describeOps(tier string, f *family, hist []int, ops []op) replay {
-	r := replay{Tier: tier, Family: f.Name, Start: f.Start, Syms: hist}
+	r := replay{Tier: tier, Family: f.Name, Start: f.Start, Clock: f.Clock, Syms: hist}
 	r.Ops = append(r.Ops, ops...)
 	for _, o := range r.Ops {
 		r.History = append(r.History, o.String())
@@ -112,6 +113,9 @@ func exec(tier string, f *family, hist []int) hk.Step {
 		ops = append(ops, f.Alpha[a])
 	}
 	res := vsched.Run(vsched.Options{Strategy: vsched.BackgroundFirst{}, MaxSteps: 1_000_000}, func() {
+		if f.Clock != 0 {
+			vsched.SetNow(f.Clock)
+		}
 		s, err := newSystem(f.Start)
 		if err != nil {
 			vsched.Failf("setup: %v", err)
@@ -262,7 +266,7 @@ func replayFn(raw json.RawMessage) string {
 		return "bad replay: " + err.Error()
 	}
 	// self-contained: the ops are replayed as an alphabet of their own
-	f := family{Name: rp.Family, Start: rp.Start, Alpha: rp.Ops}
+	f := family{Name: rp.Family, Start: rp.Start, Clock: rp.Clock, Alpha: rp.Ops}
 	hist := make([]int, len(rp.Ops))
 	for i := range hist {
 		hist[i] = i
